@@ -154,7 +154,7 @@ def gen_cases(ctx, out, earlies, exhaustive=False):
     singles = [(i, j, d) for (i, j) in pairs for d in dirs]
     lists = [[e] for e in singles] + [[e, g] for e in singles for g in singles]
     if quick and not exhaustive:
-        lists = [lists[i] for i in sorted(rng.sample(range(len(lists)), 40))]
+        lists = [lists[i] for i in sorted(rng.sample(range(len(lists)), 60))]
     for es in lists:
         for ed in ('directed', 'undirected'):
             wtype = rng.choice([None, 'int', 'double'])
@@ -163,7 +163,7 @@ def gen_cases(ctx, out, earlies, exhaustive=False):
             add(make_doc(rng, 2, edges, ns=rng.random() < 0.8, edgedefault=ed, wtype=wtype, wdefault=wd))
     ctx.count('graphml:exhaustive-2-nodes', len(lists) * 2)
     # sampled documents
-    for _ in range(0 if exhaustive else (150 if quick else 2000)):
+    for _ in range(0 if exhaustive else (300 if quick else 6000)):
         n = rng.randint(1, 6)
         k = rng.randint(0, 7)
         wtype = rng.choice([None, 'int', 'double', 'long', 'float'])
